@@ -143,16 +143,14 @@ Fixpoint tls_ae (v : val) : str :=
   | VList l => flat_map tls_ae l
   end.
 
-(** ** str(x) for a non-str argument (append, truncate's end, join's separator) *)
-Definition arg_str (a : arg) : mstr :=
-  match a with
-  | AStr sf s => (sf, s)
-  | AInt z => (false, Z_to_str z)
-  | ABool b => (false, if b then s_True else s_False)
-  | ANil => (false, s_None)
-  end.
 (** to_liquid_string(arg) *)
 Definition arg_tls (a : arg) : mstr := tls_plain (arg_val a).
+(** Since fix C19/0013 (string.py, array.py) append, the join separator and the
+    truncate / truncatewords ellipsis use to_liquid_string(arg), not str(arg). *)
+Definition opt_end (e : option arg) : mstr :=      (* end: str = "..." *)
+  match e with Some a => arg_tls a | None => (false, s_dots) end.
+Definition opt_sep (e : option arg) : mstr :=      (* separator: object = " " *)
+  match e with Some a => arg_tls a | None => (false, [32]) end.
 (** [not arg] *)
 Definition arg_falsy (a : arg) : bool :=
   match a with
@@ -403,18 +401,22 @@ Definition MIN_SLICE : Z := (-9223372036854775808)%Z.
 Definition slice_arg (z : Z) : Z := Z.max (Z.min z MAX_SLICE) MIN_SLICE.
 Definition MAX_TRUNC_WORDS : Z := 2147483647.
 
-(** string.py:177-206 *)
+(** string.py slice_.  Since fix cc0803c a negative start before the beginning
+    of the sequence is out of range: the result is '' (a plain str, also for a
+    Markup value) or []. *)
 Definition f_slice (v : val) (start : Z) (len : option Z) : val :=
   let st := slice_arg start in
   let ln := slice_arg (match len with Some l => l | None => 1%Z end) in
   let en := (st + ln)%Z in
   let en' := if (st <? 0)%Z && (0 <=? en)%Z then None else Some en in
+  let before (n : nat) := (st <? - Z.of_nat n)%Z in
+  let plain (s : str) := VStr false (if before (length s) then [] else py_slice s st en') in
   match v with
-  | VStr sf s => VStr sf (py_slice s st en')
-  | VList l => VList (py_slice l st en')
-  | VInt z => VStr false (py_slice (Z_to_str z) st en')
-  | VBool b => VStr false (py_slice (if b then s_True else s_False) st en')
-  | VNil => VStr false (py_slice s_None st en')
+  | VStr sf s => if before (length s) then VStr false [] else VStr sf (py_slice s st en')
+  | VList l => if before (length l) then VList [] else VList (py_slice l st en')
+  | VInt z => plain (Z_to_str z)
+  | VBool b => plain (if b then s_True else s_False)
+  | VNil => plain s_None
   end.
 
 Definition is_empty_val (v : val) : bool :=
@@ -427,7 +429,7 @@ Definition is_empty_val (v : val) : bool :=
 Definition eval_filter (L : lib) (f : lfilter) (v : val) : res val :=
   let sv := tls_plain v in    (* what @string_filter passes on *)
   match f with
-  | FAppend a => Ok (vstr (str_add sv (arg_str a)))                      (* string.py:28-36 *)
+  | FAppend a => Ok (vstr (str_add sv (arg_tls a)))                      (* string.py:28-34: val + to_liquid_string(arg) *)
   | FPrepend a => Ok (vstr (str_add (arg_tls a) sv))                     (* :92-95 *)
   | FUpcase => Ok (VStr (fst sv) (upper (snd sv)))                       (* Markup.upper -> Markup *)
   | FDowncase => Ok (VStr (fst sv) (lower (snd sv)))
@@ -472,7 +474,7 @@ Definition eval_filter (L : lib) (f : lfilter) (v : val) : res val :=
              else Ok (VList (map (VStr (fst sv)) (split_on s sep)))
       end
   | FJoin sep =>                                                         (* array.py:72-90 *)
-    let sp := match sep with Some a => arg_str a | None => (false, [32]) end in
+    let sp := opt_sep sep in
     let sp' := if str_eq_cp (snd sp) [32] then (true, snd sp) else sp in
     Ok (vstr (str_join sp' (map tls_plain (sequence_arg v))))
   | FFirst =>                                                            (* array.py:93-105 *)
@@ -502,7 +504,7 @@ Definition eval_filter (L : lib) (f : lfilter) (v : val) : res val :=
   | FEscapeOnce => Ok (VStr false (html_unescape_fn L (snd sv)))         (* :60-70: Markup(val).unescape() -> str *)
   | FTruncate n e =>                                                     (* :258-275, utils/text.py *)
     let num := match n with Some z => z | None => 50%Z end in
-    let en := snd (match e with Some a => arg_str a | None => (false, s_dots) end) in
+    let en := snd (opt_end e) in
     let s := snd sv in
     (* utils/text.py truncate_chars: [if val_length <= num: return val] (fix 12fd629) *)
     if (Z.of_nat (length s) <=? num)%Z then Ok (vstr sv)
@@ -513,12 +515,14 @@ Definition eval_filter (L : lib) (f : lfilter) (v : val) : res val :=
   | FTruncatewords n e =>                                                (* :282-313 *)
     let num0 := match n with Some z => z | None => 15%Z end in
     let num := if (num0 <=? 0)%Z then 1%Z else num0 in
-    let en := snd (match e with Some a => arg_str a | None => (false, s_dots) end) in
+    let en := opt_end e in
     let words := wsplit (snd sv) [] in
     if (MAX_TRUNC_WORDS <=? num)%Z then Ok (vstr sv)
     (* [if len(words) <= num: return ' '.join(words)] (fix 5db6495) *)
     else if (Z.of_nat (length words) <=? num)%Z then Ok (VStr false (join_with [32] words))
-    else Ok (VStr false (join_with [32] (firstn (Z.to_nat num) words) ++ en))
+    (* ' '.join(words[:num]) + end : the joined words are a plain str; a Markup
+       ellipsis (a literal) makes the sum Markup through __radd__ *)
+    else Ok (vstr (str_add (false, join_with [32] (firstn (Z.to_nat num) words)) en))
   | FDefault d allow_false =>                                            (* misc.py:36-60 *)
     match v with
     | VInt _ => Ok v
@@ -551,8 +555,8 @@ Inductive left :=
 | LLit (s : str)                 (* StringLiteral: Markup(value) under auto-escape *)
 | LVal (v : val)                 (* a path resolved in the render context *)
 | LTmpl (parts : list (left * list lfilter))
-    (* TemplateString: ''.join(_to_liquid_string(e.evaluate())) -> plain str;
-       a literal piece is a StringLiteral, an interpolation a FilteredExpression *)
+    (* TemplateString: a literal piece is a StringLiteral, an interpolation a
+       FilteredExpression; evaluates to Markup (literal text kept, values escaped) *)
 | LCapture (body : list (left * list lfilter)).   (* {% capture %} of output statements *)
 
 (** An output statement [{{ left | chain }}] writes
@@ -562,16 +566,21 @@ Fixpoint eval_left (L : lib) (e : left) : res val :=
   | LLit s => Ok (VStr true s)
   | LVal v => Ok v
   | LTmpl parts =>
-    do r <- (fix go (ps : list (left * list lfilter)) : res str :=
-               match ps with
+    (* expressions.py TemplateString.evaluate / evaluate_async under auto-escape
+       (fix 611e27a): Markup('').join(_to_liquid_string(e.evaluate(), auto_escape=True)):
+       literal parts (StringLiteral -> Markup) pass, interpolated values are
+       escaped, the result is Markup - exactly what a capture of the same
+       output statements yields. *)
+    do r <- (fix go (bs : list (left * list lfilter)) : res str :=
+               match bs with
                | [] => Ok []
-               | (e, ch) :: ps' =>
+               | (e, ch) :: bs' =>
                  do v <- eval_left L e ;;
                  do w <- eval_chain L ch v ;;
-                 do r <- go ps' ;;
-                 Ok (tls_text w ++ r)
+                 do r <- go bs' ;;
+                 Ok (tls_ae w ++ r)
                end) parts ;;
-    Ok (VStr false r)
+    Ok (VStr true r)
   | LCapture body =>
     (* capture_tag.py:50-55: the block is rendered into a buffer; the captured
        text is wrapped by RenderContext.markup (context.py:445-447). *)
